@@ -133,11 +133,10 @@ myth_tls_call_destructors_rec(myth_tls_tree_node_t * n,
     int s = 0;
     int c_stride = stride >> myth_tls_tree_node_log_n_children;
     int c_base = base;
-    for (i = 0; i < myth_tls_tree_node_n_children; i++) {
+    for (i = 0; i < myth_tls_tree_node_n_children; i++, c_base += c_stride) {
       myth_tls_tree_node_t * c = n->children[i];
-      if (!c) break;
+      if (!c) continue;
       s += myth_tls_call_destructors_rec(c, depth + 1, c_base, c_stride, ka);
-      c_base += stride;
     }
     return s;
   }
@@ -159,11 +158,10 @@ myth_tls_tree_destroy_rec(myth_tls_tree_t * t, myth_tls_tree_node_t * n,
     int i;
     int c_stride = stride >> myth_tls_tree_node_log_n_children;
     int c_base = base;
-    for (i = 0; i < myth_tls_tree_node_n_children; i++) {
+    for (i = 0; i < myth_tls_tree_node_n_children; i++, c_base += c_stride) {
       myth_tls_tree_node_t * c = n->children[i];
-      if (!c) break;
+      if (!c) continue;
       myth_tls_tree_destroy_rec(t, c, depth + 1, c_base, c_stride);
-      c_base += stride;
     }
   }
   myth_tls_tree_node_free(t, n);
